@@ -45,6 +45,7 @@ func checkC14(w *World, r *Recorder) propInfo {
 		Rule:        "one obligation per spec row / function; non-trivial = decided by the interval engine (cells compared)",
 		Trusted:     []string{"go/packages+go/types+go/ssa (x/tools v0.29.0)", "checker's interval transfer functions", "model: fmt.Errorf returns a non-nil error"},
 		Assumptions: []string{"amd64 integer sizes", "exported constant names StateUnknown..StateInvalid denote the specified states"},
+		Exhaustive:  true, // the cells are checked to cover all 65 536 values
 	}
 	root := w.Root
 	valid := lifecycleValidSet()
